@@ -1,5 +1,6 @@
 import O4.Lemmas.StartUp
 import O4.Lemmas.TicketJson
+import O4.Generated.Facts.Obfs4
 /-!
 # C18 — a bridge keeps its identity across restarts and crashes; bridge lines round-trip
 
@@ -867,5 +868,20 @@ theorem tickets_in_place_block (d : Dir) (store : List Ticket) (t : Ticket) (now
   · unfold loadTickets
     have : get (SF.set d tfN []) Consts.Scramblesuit.ticketFile = some [] := get_set_self _ _ _
     rw [this]; rfl
+
+
+/-- **structural fact, regenerated from the Go source on every run (go/ast)**: every package-level
+    variable (file-scope `var`) of the packages this property's mechanisms live in
+    (transports/obfs4) is one of the names below — error values, fixed byte strings,
+    flags and function hooks that the code only reads after initialisation.  The models treat all
+    other state as owned by one connection / one object; a NEW package-level variable (a cache, a
+    pool, a scratch buffer, a pre-keyed hash shared "to save allocations") is how such state comes
+    to be shared between connections and goroutines, which compiles, passes the tests and typically
+    needs true parallelism or a multi-connection history to misbehave.  Adding one breaks this
+    theorem; the concurrent / multi-connection families of the harness then search for the failing
+    schedule. -/
+theorem no_new_package_level_state :
+    O4.Facts.Obfs4.pkg_vars ⊆ ["ErrInvalidHandshake", "ErrMarkNotFoundYet", "ErrNtorFailed", "ErrReplayedHandshake", "biasedDist", "zeroPadBytes"] := by
+  decide
 
 end C18
